@@ -456,6 +456,14 @@ def _sym(e: ast.AST, env: Env) -> Poly:
         for a in e.args.args:
             names.append(_bind_bound(inner, a.arg))
         return _atom("lambda %s: %s" % (",".join(names), _sym(e.body, inner)))
+    if isinstance(e, ast.DictComp):
+        inner = env.child()
+        parts = []
+        for g in e.generators:
+            it_s = _sym(g.iter, inner)
+            tname = _bind_target(inner, g.target)
+            parts.append("for %s in %s%s" % (tname, it_s, "".join(" if %s" % _sym(c, inner) for c in g.ifs)))
+        return _atom("{%s: %s %s}" % (_sym(e.key, inner), _sym(e.value, inner), " ".join(parts)))
     if isinstance(e, ast.JoinedStr):
         return _atom(ast.unparse(e))
     if isinstance(e, ast.Dict):
@@ -708,6 +716,17 @@ def _accumulator(st: ast.For, env: Env):
         else:
             return None
     inner = st.body[-1]
+    # if C: acc.append(A) else: acc.append(B)   ->   acc.append(A if C else B)
+    if isinstance(inner, ast.If) and len(inner.body) == 1 and len(inner.orelse) == 1:
+        def _app(x):
+            if isinstance(x, ast.Expr) and isinstance(x.value, ast.Call) and isinstance(x.value.func, ast.Attribute) and x.value.func.attr == "append" and \
+                    isinstance(x.value.func.value, ast.Name) and len(x.value.args) == 1:
+                return x.value.func.value.id, x.value.args[0]
+            return None
+        a_, b_ = _app(inner.body[0]), _app(inner.orelse[0])
+        if a_ and b_ and a_[0] == b_[0]:
+            inner = ast.Expr(value=ast.Call(func=ast.Attribute(value=ast.Name(id=a_[0], ctx=ast.Load()), attr="append", ctx=ast.Load()),
+                                            args=[ast.IfExp(test=inner.test, body=a_[1], orelse=b_[1])], keywords=[]))
     conds = []
     while isinstance(inner, ast.If) and not inner.orelse and len(inner.body) == 1:
         conds.append(inner.test)
